@@ -192,10 +192,15 @@ where
                     }
                     first_maximal = false;
                     if arg_is_missing {
+                        // the returned extension is a witness only for the arguments it omits
+                        let not_in_current = compute_in_current_bool(&computer)
+                            .iter()
+                            .map(|b| !b)
+                            .collect();
                         break (
                             false,
                             vec![],
-                            missing_in_one_maximal,
+                            not_in_current,
                             Some(computer.current().to_vec()),
                         );
                     }
